@@ -110,6 +110,9 @@ type World struct {
 	stoppedArr [8]string // messages of process-stopped events
 	nStopped   int
 
+	// Phase is set by harnesses (e.g. "open" while the database is being opened) for fault filters to consult
+	Phase string
+
 	Probes      map[string]int
 	liteCounter uint64
 	counters    map[string]uint64
